@@ -13,6 +13,9 @@ package dnssec
 
 import (
 	"bytes"
+	"encoding/base32"
+	"encoding/hex"
+	"math/big"
 	"encoding/json"
 	"errors"
 	"fmt"
@@ -623,3 +626,255 @@ func vC02UpperSome(r *rand.Rand, n vC02Name) vC02Name {
 	}
 	return o
 }
+
+// ---------------------------------------------------------------- NSEC3 chains
+
+var vC02B32 = base32.HexEncoding.WithPadding(base32.NoPadding)
+
+type vC02Rec3 struct {
+	zone     vC02Name // owner without the hash label
+	label    string   // first label as text
+	next     []byte   // next hashed owner (raw)
+	alg      uint8
+	flags    uint8
+	iter     uint16
+	salt     string // hex
+	class    uint16
+	types    []uint16
+	genuine  bool
+	note     string
+	hashedOf vC02Name
+}
+
+func (r vC02Rec3) rr() *dns.NSEC3 {
+	return &dns.NSEC3{
+		Hdr:        dns.RR_Header{Name: r.label + "." + strings.TrimPrefix(vC02Pres(r.zone), "."), Rrtype: dns.TypeNSEC3, Class: r.class, Ttl: 300},
+		Hash:       r.alg,
+		Flags:      r.flags,
+		Iterations: r.iter,
+		SaltLength: uint8(len(r.salt) / 2),
+		Salt:       r.salt,
+		HashLength: uint8(len(r.next)),
+		NextDomain: vC02B32.EncodeToString(r.next),
+		TypeBitMap: append([]uint16(nil), r.types...),
+	}
+}
+
+// decode a 32-char base32hex label to its value; ok=false when it is not one
+func vC02Decode32(s string) (*big.Int, bool) {
+	if len(s) != 32 {
+		return nil, false
+	}
+	b, err := vC02B32.DecodeString(strings.ToUpper(s))
+	if err != nil || len(b) != 20 {
+		return nil, false
+	}
+	return new(big.Int).SetBytes(b), true
+}
+
+type vC02Params struct {
+	iter uint16
+	salt string
+}
+
+func vC02Hash(n vC02Name, p vC02Params) []byte {
+	h := dns.HashName(vC02Pres(n), dns.SHA1, p.iter, p.salt)
+	b, err := vC02B32.DecodeString(strings.ToUpper(h))
+	if err != nil || len(b) != 20 {
+		panic("vC02Hash: " + h)
+	}
+	return b
+}
+
+// the genuine NSEC3 chain: every owner and empty non-terminal is hashed, except
+// (Opt-Out) insecure delegations chosen to be left out and the empty
+// non-terminals that exist only because of them
+func (g *vC02Gen) nsec3Chain(z *vC02Zone, p vC02Params, optout bool, allFlagged bool) (chain []vC02Rec3, omitted []vC02Name) {
+	r := g.r
+	type hn struct {
+		name  vC02Name
+		types []uint16
+		h     []byte
+	}
+	omit := map[string]bool{}
+	if optout {
+		for _, nd := range z.nodes {
+			underWild := false // Opt-Out never hides a wildcard name (optout_discipline in Proofs_Nsec3.v)
+			for _, l := range nd.name[:len(nd.name)-len(z.apex)] {
+				if string(l) == "*" {
+					underWild = true
+				}
+			}
+			if !underWild && vC02Has(nd.types, dns.TypeNS) && !vC02Has(nd.types, dns.TypeSOA) && !vC02Has(nd.types, dns.TypeDS) && r.Intn(3) > 0 {
+				omit[vC02Key(nd.name)] = true
+				omitted = append(omitted, nd.name)
+			}
+		}
+	}
+	seen := map[string]bool{}
+	var hs []hn
+	for _, nd := range z.nodes {
+		if omit[vC02Key(nd.name)] {
+			continue
+		}
+		var ts []uint16
+		for _, t := range nd.types {
+			if t != dns.TypeNSEC {
+				ts = append(ts, t)
+			}
+		}
+		if !seen[vC02Key(nd.name)] {
+			seen[vC02Key(nd.name)] = true
+			hs = append(hs, hn{nd.name, ts, vC02Hash(nd.name, p)})
+		}
+		for k := len(z.apex); k < len(nd.name); k++ { // ancestors: empty non-terminals get an NSEC3 with no types
+			a := vC02Suffix(nd.name, k)
+			if z.owner(a) == nil && !seen[vC02Key(a)] {
+				seen[vC02Key(a)] = true
+				hs = append(hs, hn{a, nil, vC02Hash(a, p)})
+			}
+		}
+	}
+	// empty non-terminals above omitted delegations only
+	for _, o := range omitted {
+		for k := len(z.apex); k < len(o); k++ {
+			a := vC02Suffix(o, k)
+			if z.owner(a) == nil && !seen[vC02Key(a)] {
+				omitted = append(omitted, a)
+				seen[vC02Key(a)] = true
+			}
+		}
+	}
+	sort.Slice(hs, func(i, j int) bool { return string(hs[i].h) < string(hs[j].h) })
+	for i, x := range hs {
+		nx := hs[(i+1)%len(hs)].h
+		fl := uint8(0)
+		if optout && allFlagged {
+			fl = 1
+		}
+		for _, o := range omitted { // a span hiding an unsigned delegation must carry Opt-Out
+			oh := string(vC02Hash(o, p))
+			lo, hi := string(x.h), string(nx)
+			in := false
+			switch {
+			case lo < hi:
+				in = lo < oh && oh < hi
+			case lo > hi:
+				in = oh > lo || oh < hi
+			default:
+				in = oh != lo
+			}
+			if in {
+				fl = 1
+			}
+		}
+		chain = append(chain, vC02Rec3{zone: z.apex, label: strings.ToLower(vC02B32.EncodeToString(x.h)), next: nx, alg: 1, flags: fl,
+			iter: p.iter, salt: p.salt, class: 1, types: x.types, genuine: true, hashedOf: x.name})
+	}
+	return chain, omitted
+}
+
+func vC02CoqOptN(v *big.Int, ranks map[string]int) string {
+	if v == nil {
+		return "None"
+	}
+	return fmt.Sprintf("(Some %d)", ranks[v.String()])
+}
+
+
+// vC02Nsec3Coq renders NSEC3 records and a hash table for the Coq model: every hash value is
+// replaced by its rank among all hash values of the case (the model only uses = and <).
+func vC02Nsec3Coq(rrs []dns.RR, zones []vC02Name, tabNames map[string]vC02Name, hp vC02Params) (rcoq, tcoq []string) {
+	vals := map[string]*big.Int{}
+	type rh struct{ o, n *big.Int }
+	rhs := make([]rh, len(rrs))
+	for i, rr := range rrs {
+		n3 := rr.(*dns.NSEC3)
+		lbl := strings.SplitN(n3.Hdr.Name, ".", 2)[0]
+		if v, ok := vC02Decode32(lbl); ok {
+			rhs[i].o = v
+			vals[v.String()] = v
+		}
+		if v, ok := vC02Decode32(n3.NextDomain); ok {
+			rhs[i].n = v
+			vals[v.String()] = v
+		}
+	}
+	var keys []string
+	for k := range tabNames {
+		keys = append(keys, k)
+	}
+	sort.Strings(keys)
+	tv := map[string]*big.Int{}
+	for _, k := range keys {
+		v := new(big.Int).SetBytes(vC02Hash(tabNames[k], hp))
+		tv[k] = v
+		vals[v.String()] = v
+	}
+	var sorted []*big.Int
+	for _, v := range vals {
+		sorted = append(sorted, v)
+	}
+	sort.Slice(sorted, func(i, j int) bool { return sorted[i].Cmp(sorted[j]) < 0 })
+	ranks := map[string]int{}
+	for i, v := range sorted {
+		ranks[v.String()] = i
+	}
+	for i, rr := range rrs {
+		n3 := rr.(*dns.NSEC3)
+		salt, _ := hex.DecodeString(n3.Salt)
+		rcoq = append(rcoq, fmt.Sprintf("mk_nsec3 %s %s %s %d %d %d %d %s %d %s", vC02Coq(zones[i]), vC02CoqOptN(rhs[i].o, ranks), vC02CoqOptN(rhs[i].n, ranks),
+			n3.HashLength, n3.Hash, n3.Flags, n3.Iterations, vC02CoqLabel(salt), n3.Hdr.Class, vC02CoqTypes(n3.TypeBitMap)))
+	}
+	for _, k := range keys {
+		tcoq = append(tcoq, fmt.Sprintf("(%s,%d)", vC02Coq(tabNames[k]), ranks[tv[k].String()]))
+	}
+	return rcoq, tcoq
+}
+
+// candidate question names around a zone: owners, ENTs, names below cuts,
+// wildcard expansions, immediate canonical neighbours of every owner, the
+// apex, names outside.
+func (g *vC02Gen) candidates(z *vC02Zone) []vC02Name {
+	var c []vC02Name
+	add := func(n vC02Name) { c = append(c, n) }
+	for _, nd := range z.nodes {
+		add(nd.name)
+		for k := len(z.apex); k < len(nd.name); k++ {
+			add(vC02Suffix(nd.name, k)) // ancestors: ENTs or owners
+		}
+		add(vC02Child(g.poolLabel(), nd.name))
+		add(vC02Child([]byte{0}, nd.name)) // canonical successor of the owner
+		if vC02CutTypes(nd.types) {
+			add(vC02Child(g.poolLabel(), vC02Child(g.poolLabel(), nd.name)))
+		}
+		if len(nd.name) > len(z.apex) {
+			par := nd.name[1:]
+			l := append([]byte(nil), nd.name[0]...)
+			// neighbours of the leaf label
+			l2 := append(append([]byte(nil), l...), 0)
+			add(vC02Child(l2, par))
+			if l[len(l)-1] > 0 {
+				l3 := append([]byte(nil), l...)
+				l3[len(l3)-1]--
+				add(vC02Child(append(l3, 0xFF), par))
+			}
+			if l[0] == '*' && len(l) == 1 {
+				add(vC02Child(g.poolLabel(), par))
+				add(vC02Child(g.poolLabel(), vC02Child(g.poolLabel(), par)))
+			}
+		}
+	}
+	add(z.apex)
+	add(vC02Child(g.poolLabel(), z.apex))
+	add(vC02Child(g.poolLabel(), vC02Child(g.poolLabel(), z.apex)))
+	add(vC02Child(vC02Star, z.apex))
+	if len(z.apex) > 0 {
+		add(z.apex[1:])
+		sib := append([]byte(nil), z.apex[0]...)
+		sib[len(sib)-1] ^= 1
+		add(vC02Child(sib, z.apex[1:]))
+	}
+	return c
+}
+
